@@ -971,9 +971,27 @@ impl CommitEnv for LsmCommitEnv {
 		// Write to WAL for durability
 		let enc_bytes = processed_batch.encode()?;
 		let mut wal_guard = self.core.wal.write();
-		wal_guard.append(&enc_bytes)?;
-		if sync {
-			wal_guard.sync()?;
+		let before = wal_guard.position()?;
+		let logged = wal_guard.append(&enc_bytes).and_then(|_| {
+			if sync {
+				wal_guard.sync()
+			} else {
+				Ok(())
+			}
+		});
+		if let Err(e) = logged {
+			// This commit reports the error: whatever reached the segment of its record (all
+			// of it, if only the sync failed) must go, or the next recovery would replay a
+			// commit that failed. If even that cannot be done the log is in an unknown state
+			// and nothing more may be appended to it.
+			if let Err(e2) = wal_guard.rollback_to(before) {
+				log::error!("Commit log could not be cut back after a failed append: {e2}");
+				self.core.error_handler.set_error(
+					Error::Other(format!("commit log unusable after a failed append: {e2}")),
+					BackgroundErrorReason::MemtablaFlush,
+				);
+			}
+			return Err(e.into());
 		}
 		processed_batch.logged_in_wal = wal_guard.get_active_log_number();
 		processed_batch.logged_with_sync = sync;
